@@ -22,7 +22,7 @@ from rpyc.core.channel import Channel                               # noqa: E402
 from rpyc.core.async_ import AsyncResultTimeout                     # noqa: E402
 
 PID = "C08"
-KINDS = ("val", "ref", "raise", "surr", "bigint", "badexc", "nested", "genexit", "baseexc")
+KINDS = ("val", "ref", "raise", "surr", "bigint", "badexc", "nested", "genexit", "baseexc", "nested-raise", "nested-bigint")
 
 
 class Weird(BaseException):
@@ -51,6 +51,14 @@ class ServerSvc(_rpyc.Service):
             raise ValueError(BIG, tok)
         if kind == "nested":
             return ("nested", cb(tok))
+        if kind == "nested-raise":
+            # another request is dispatched on this side while this one is in progress (the callback's reply path may
+            # call in again), and THEN this one fails: the failure must still be answered under its own number
+            cb(tok)
+            raise ValueError(tok)
+        if kind == "nested-bigint":
+            cb(tok)
+            return (BIG, tok)
         if kind == "genexit":
             raise GeneratorExit(tok)
         if kind == "baseexc":
@@ -170,7 +178,7 @@ def run_history(hist):
         if want is not None:
             if out != want:
                 viol.append(("wrong-result:%s:%s" % (kind, out[1] if out[0] == "E" else "value"), "request %d (%s): %r" % (t, kind, out)))
-        elif kind == "raise":
+        elif kind in ("raise", "nested-raise"):
             if not (out[0] == "E" and out[1] == "exc:ValueError" and out[2] == (t,)):
                 viol.append(("wrong-result:raise:%s" % (out[1] if out[0] == "E" else "value"), "request %d: %r" % (t, out)))
         elif kind == "surr":
@@ -389,7 +397,7 @@ def main(tier, replay_obj=None):
     nreq = 3 if tier == "quick" else 4
     kinds = KINDS
     res = runner.Result(PID, "model_checking", tier,
-                        "A: all request streams of <= %d requests over 9 handler outcomes x {sync, async} with every placement of "
+                        "A: all request streams of <= %d requests over 11 handler outcomes x {sync, async} with every placement of "
                         "'collect result i', run on a real client/server Connection pair with a frame ledger at the transport; "
                         "B: every malformed request of a %d-entry menu x 8 sequence-number shapes, and all ordered pairs of menu "
                         "entries, each followed by a ping; states = distinct histories, transitions = events executed" % (nreq, len(malformed_menu())))
